@@ -90,6 +90,29 @@ class Body:
             return True
         return target not in self.reachable(0, removed_blocks=[blk])
 
+    def conditions_at(self, target):
+        """[(condition expression, truth value)] of every boolean branch one of whose edges dominates block `target`:
+        what is known to hold whenever `target` runs (short-circuit && / || are separate branches in MIR)"""
+        out = []
+        for bb in range(self.n):
+            t = self.term(bb)
+            if t["k"] != "SwitchInt":
+                continue
+            tg = dict((v, b) for v, b in t["targets"])
+            if set(tg) != {0}:
+                continue
+            cond = self.deep(self.expr_of_operand, t["discr"])
+            val_true, val_false = True, False
+            while isinstance(cond, tuple) and cond[0] == "un" and cond[1] == "Not":
+                cond = cond[2]
+                val_true, val_false = val_false, val_true
+            if t["otherwise"] != tg[0]:
+                if self.dominated_by_edge(target, (bb, t["otherwise"])):
+                    out.append((cond, val_true))
+                elif self.dominated_by_edge(target, (bb, tg[0])):
+                    out.append((cond, val_false))
+        return out
+
     def must_pass_blocks(self, start, targets, through):
         """every path start -> any of `targets` passes a block in `through` (start itself excluded)"""
         r = self.reachable(start, removed_blocks=set(through) - {start})
@@ -250,6 +273,37 @@ class Body:
             return ("repeat", self.expr_of_operand(rv["op"], depth), rv["n"])
         return ("rv?", k)
 
+    def origins(self, e, seen=None, depth=10):
+        """the set of source expressions a value can come from: named / multiply assigned locals are followed through
+        every whole assignment (copies, field projections of them), temporaries are already expanded by expr_of_*.
+        Leaves are calls, arguments, constants, places of `self`, ... ; ('partial', local) marks a piecewise write."""
+        seen = set() if seen is None else seen
+        if depth <= 0:
+            return {("deep",)}
+        if isinstance(e, tuple) and e and e[0] == "var" and len(e) > 2 and isinstance(e[2], int):
+            l = e[2]
+            if l in seen:
+                return set()
+            seen.add(l)
+            out = set()
+            for b, i, kind, payload in self.defs().get(l, []):
+                if kind == "arg":
+                    out.add(("arg", self.local_name(l), l))
+                elif kind == "call":
+                    out.add(_freeze_t(self.expr_of_call(payload)))
+                elif kind == "assign":
+                    out |= self.origins(self.expr_of_rvalue(payload["rv"]), seen, depth - 1)
+                else:
+                    out.add(("partial", self.local_name(l)))
+            return out
+        if isinstance(e, tuple) and e and e[0] in ("field", "downcast") and isinstance(e[1], tuple) and e[1] and e[1][0] == "var":
+            return {(e[0], o, e[2]) for o in self.origins(e[1], seen, depth - 1)}
+        if isinstance(e, tuple) and e and e[0] in ("ref", "deref", "cast") and isinstance(e[1], tuple):
+            return {(e[0], o) + tuple(e[2:]) for o in self.origins(e[1], seen, depth - 1)}
+        if isinstance(e, tuple) and e and e[0] in ("field", "downcast") and isinstance(e[1], tuple) and e[1] and e[1][0] in ("field", "downcast", "deref", "ref"):
+            return {(e[0], o, e[2]) for o in self.origins(e[1], seen, depth - 1)}
+        return {_freeze_t(e)}
+
     def deep(self, fn, *a, **kw):
         """run an expr_of_* function with single-definition user variables expanded"""
         old = self.inline_named
@@ -268,6 +322,17 @@ class Body:
                 callee = t.get("resolved") or t.get("callee") or ""
                 if pred is None or pred(callee, t):
                     out.append((b, t))
+        return out
+
+    def variant_edges(self, local):
+        """{variant index: edge} of the SwitchInt(s) on the discriminant of `local` (Option: 0 None, 1 Some)"""
+        out = {}
+        for bb in range(self.n):
+            sw = self.switch_on(bb)
+            if sw and isinstance(sw[0], tuple) and sw[0][0] == "discr" and isinstance(sw[0][1], tuple) and sw[0][1][0] == "var" and sw[0][1][2] == local:
+                for v, tgt in sw[1].items():
+                    out.setdefault(v, (bb, tgt))
+                out.setdefault("otherwise", (bb, sw[2]))
         return out
 
     def switch_on(self, bb):
@@ -320,6 +385,14 @@ class Body:
         if t["k"] == "Goto":
             return self._bool_edges_from(t["target"], cur, neg, depth + 1)
         return None
+
+
+def _freeze_t(e):
+    if isinstance(e, (tuple, list)):
+        return tuple(_freeze_t(x) for x in e)
+    if isinstance(e, dict):
+        return tuple(sorted((k, _freeze_t(v)) for k, v in e.items()))
+    return e
 
 
 def _freeze(v):
